@@ -694,4 +694,67 @@ theorem legal_microstep_plain (h : Hooks) (hok : HooksOK h) (fl : Flavor) (m : M
     rw [hmem q, mem_stepConfig, hpent]
     simp only [mem_sortExit, exitSet, domain]
 
+-- the fold step of `processEvent` --------------------------------------------------------------------
+/-- the step function `processEvent` folds over the selected transitions (`n` is `len(transitions)`) -/
+def peStep (h : Hooks) (fl : Flavor) (m : Machine) (ev : Ev) (n : Nat) (s : St) (c : Cand) : St :=
+  if s.err.isSome then s
+  else if finished s.status then s
+  else if n > 1 && !(s.cfg.contains c.src) then s
+  else execute h fl m ev (planTransition m s.cfg s.hist c) s
+
+theorem processEvent_peFold (h : Hooks) (fl : Flavor) (m : Machine) (u : UEnv) (ev : Ev) (s : St)
+    {sel : List Cand} (hs : selectTransitions m s.cfg (u.genv s.ctx ev.type) ev = .ok sel) :
+    processEvent h fl m u ev s = sel.foldl (peStep h fl m ev sel.length) s := by
+  unfold processEvent
+  rw [hs]
+  rfl
+
+/-- case analysis of the fold step: the state is returned unchanged, or the candidate is executed
+    from an error-free, unfinished state in which (several transitions selected) its source is active -/
+theorem peStep_cases (h : Hooks) (fl : Flavor) (m : Machine) (ev : Ev) (n : Nat) (s : St) (c : Cand) :
+    peStep h fl m ev n s c = s ∨
+    (s.err = none ∧ finished s.status = false ∧ (n > 1 → c.src ∈ s.cfg) ∧
+      peStep h fl m ev n s c = execute h fl m ev (planTransition m s.cfg s.hist c) s) := by
+  unfold peStep
+  by_cases herr : s.err.isSome = true
+  · left; simp only [herr, if_true]
+  · by_cases hfin : finished s.status = true
+    · left; simp only [herr, hfin, if_true]; simp
+    · by_cases hst : (decide (n > 1) && !(s.cfg.contains c.src)) = true
+      · left; simp only [herr, hfin, hst, if_true]; simp
+      · right
+        refine ⟨?_, by simpa using hfin, ?_, ?_⟩
+        · cases he : s.err with
+          | none => rfl
+          | some e => simp [he] at herr
+        · intro hn
+          simp only [hn, decide_true, Bool.true_and, Bool.not_eq_true', Bool.not_eq_false] at hst
+          simpa using hst
+        · simp only [herr, hfin, hst]; simp
+
+theorem peStep_err (h : Hooks) (fl : Flavor) (m : Machine) (ev : Ev) (n : Nat) (s : St) (c : Cand)
+    (he : s.err.isSome = true) : peStep h fl m ev n s c = s := by
+  unfold peStep; simp only [he, if_true]
+
+theorem peStep_finished (h : Hooks) (fl : Flavor) (m : Machine) (ev : Ev) (n : Nat) (s : St) (c : Cand)
+    (hf : finished s.status = true) : peStep h fl m ev n s c = s := by
+  unfold peStep; simp only [hf, if_true]; split <;> rfl
+
+/-- `break`: from a finished state the remaining candidates contribute nothing -/
+theorem peFold_finished (h : Hooks) (fl : Flavor) (m : Machine) (ev : Ev) (n : Nat) (cs : List Cand) (s : St)
+    (hf : finished s.status = true) : cs.foldl (peStep h fl m ev n) s = s := by
+  induction cs with
+  | nil => rfl
+  | cons c cs ih => rw [List.foldl_cons, peStep_finished h fl m ev n s c hf]; exact ih
+
+theorem peFold_err (h : Hooks) (fl : Flavor) (m : Machine) (ev : Ev) (n : Nat) (cs : List Cand) (s : St)
+    (he : s.err.isSome = true) : cs.foldl (peStep h fl m ev n) s = s := by
+  induction cs with
+  | nil => rfl
+  | cons c cs ih => rw [List.foldl_cons, peStep_err h fl m ev n s c he]; exact ih
+
+theorem finished_running : finished "running" = false := by decide
+theorem finished_of_running {st : String} (h : st = "running") : finished st = false := by
+  subst h; decide
+
 end XSM
